@@ -74,6 +74,7 @@ def run(ctx):
     deferred_error_first(ctx, facts)
     parse_errors(ctx, facts)
     from rules import C01, C19, C13
+    C01.chunk_cover(ctx, facts)
     C01.partial_nonzero(ctx, facts)    # the chunked stream processors (helpers/stream/chunks.rs): a partial chunk never claims zero rows
     C19.err_adapters(ctx, facts)       # stream adapters over fallible streams hand every inner error on
     C13.wake_rule(ctx, facts)          # no stream in these modules returns Pending without a registered waker
